@@ -43,10 +43,6 @@ theorem grow_of_same {s s' : St} (e : Same4 s s') : Grow s s' := by
   unfold live at hl ⊢
   rw [e3, e4] at hl; exact hl
 
-theorem mem_keys_erase {β : Type} {l : List (Sc × β)} {k x : Sc} (h : x ∈ keys (erase l k)) : x ∈ keys l := by
-  rw [keys_erase] at h
-  exact (List.mem_filter.mp h).1
-
 theorem grow_modRef (s : St) (slot : Slot) (f : RefSt → RefSt) : Grow s (modRef s slot f) := (grow_of_same ⟨rfl, rfl, rfl, rfl⟩)
 
 theorem grow_ccNew (s : St) : Grow s (ccNewSubConn s).1 := by
